@@ -23,10 +23,14 @@ RULE = (
 ASSUMPTIONS = ["child processes are replaced by harness-controlled fake processes (asyncio.create_subprocess_shell patched in the harness process)"]
 
 
+QUICK_BUDGET = {"cases": 25000, "deadline_s": 80, "case_timeout_s": 60, "floors": {"spawn_events": 30000, "bad_dep_tasks": 10000}}
+THOROUGH_FACTOR = 32  # thorough = the same workload with 32x the cases (floors scale along)
+
+
 def budget(tier):
-    if tier == "thorough":
-        return {"cases": 400000, "deadline_s": 600, "case_timeout_s": 60, "floors": {"spawn_events": 600000, "bad_dep_tasks": 200000}}
-    return {"cases": 25000, "deadline_s": 80, "case_timeout_s": 60, "floors": {"spawn_events": 30000, "bad_dep_tasks": 10000}}
+    from ..core import scaled_budget
+
+    return scaled_budget(QUICK_BUDGET, tier, THOROUGH_FACTOR, noscale=())
 
 
 def gen_case(rng, idx, tier):
